@@ -112,6 +112,20 @@ def _canon_job(name):
     return (kind, chem.canon(smi) if kind == "ok" and smi else smi)
 
 
+def _multi_spec(job):
+    """Spec of several modifications on one residue: the single-modification Spec edits applied one after the other"""
+    sugar, mods = job
+    pk, ps = real.smiles_of(sugar)
+    if pk != "ok" or not ps:
+        return None
+    cur = ps
+    for pos, tok in mods:
+        cur = expected(cur, pos, tok)
+        if cur is None:
+            return None
+    return cur
+
+
 def run(rep, tier, driver):
     rng = random.Random(seed() * 47 + 4)
     vocab = gen.Vocab()
@@ -187,16 +201,18 @@ def run(rep, tier, driver):
     reactx.run(rep, tier, driver, [j[0] for j in jobs][: (2500 if tier == "quick" else 60000)] + extra_names)
     # composition: several modifications, all orders
     mods_pool = ["Ac", "S", "P", "Bz", "F", "N3", "Gc", "Bn"]
-    names, groups = [], []
-    for gi in range(60 if tier == "quick" else 800):
-        sg = rng.choice(["Glc", "Gal", "Man", "GlcN", "Xyl", "Fuc", "Neu", "Kdo"])
+    names, groups, specs = [], [], {}
+    for gi in range(80 if tier == "quick" else 1000):
+        sg = rng.choice(["Glc", "Gal", "Man", "GlcN", "Xyl", "Fuc", "Neu", "Kdo", "Neu", "Kdn", "Kdn", "LDManHep"])
         info = cv.get(sg)
         if not info:
             continue
         free = [p for p, e in info["free"] if e == "O"]
         k = rng.randint(2, min(4, len(free)))
         ps = rng.sample(free, k)
-        ms = ["%d%s" % (p, rng.choice(mods_pool)) for p in ps]
+        toks = [rng.choice(mods_pool) for _ in ps]
+        ms = ["%d%s" % (p, t) for p, t in zip(ps, toks)]
+        specs[gi] = (sg, list(zip(ps, toks)))
         perms = list(itertools.permutations(ms))
         if len(perms) > 8:
             perms = rng.sample(perms, 8)
@@ -210,12 +226,18 @@ def run(rep, tier, driver):
                 names.append(v)
                 groups.append(gi)
     res = pmap(_canon_job, names, chunk=8)
+    spec_keys = sorted(specs)
+    spec_vals = dict(zip(spec_keys, pmap(_multi_spec, [specs[k] for k in spec_keys], chunk=4)))
     first = {}
     for gi, nm, r in zip(groups, names, res):
         rep.count("composition")
         rep.case(canon=nm, nontrivial=(r[0] == "ok" and bool(r[1])))
         if gi not in first:
             first[gi] = (nm, r)
+            want = spec_vals.get(gi)
+            if want is not None and r[0] == "ok" and r[1] and r[1] != want and not any(t in ("Me",) for _, t in specs[gi][1]):
+                rep.violation("input", {"iupac": nm, "parent": specs[gi][0], "mods": specs[gi][1]}, {"result": r[1]},
+                              {"result": want, "note": "each group at its own position"}, key="multi:" + nm)
         elif r != first[gi][1]:
             rep.extra.setdefault("order_samples", []).append([nm, r, first[gi]])
             rep.violation("input", {"iupac": nm, "reference": first[gi][0]}, {"result": r}, {"result": first[gi][1], "note": "order of writing must not matter"}, key="order:" + nm)
